@@ -155,7 +155,7 @@ def run(ctx):
                         idx.setdefault("filters", (i, e))
                     elif "Vec::is_empty(self.extensions" in d:
                         idx.setdefault("has-exts", (i, e))
-                    elif d in ("is_dir", "Option::map_or(file_type, False, closure)"):
+                    elif d in ("is_dir", "Option::map_or(file_type, False, closure)", "Option::is_some_and(file_type, closure)"):
                         idx.setdefault("is-dir", (i, e))
             order = [k for k, _ in sorted(idx.items(), key=lambda kv: kv[1][0])]
             key = ",".join("%s=%s" % (k, idx[k][1][2]) for k in order) or "none"
@@ -201,7 +201,7 @@ def run(ctx):
                     init = lit["b"]
         ctx.require(init is False, "R11.2", "filtered-init", "`filtered` starts as false", cloc, detail=str(init),
                     fail="`filtered` no longer starts as false: with no filter and no extension configured every path is rejected")
-        ISDIR = ("Option::map_or(file_type, False, closure)", "is_dir")
+        ISDIR = ("Option::map_or(file_type, False, closure)", "Option::is_some_and(file_type, closure)", "is_dir")
 
         def ev_of(p):
             f = dict(ign=None, hasf=None, fm=None, hase=None, dir=None, ext=None, extm=None)
@@ -285,7 +285,7 @@ def run(ctx):
         for st in thir.walk(croot):
             if isinstance(st, dict) and st.get("k") == "let" and st["p"].get("k") == "bind" and isinstance(st.get("i"), dict):
                 lets[st["p"]["n"]] = pathx.desc(st["i"])
-        ctx.require(lets.get("is_dir") == "Option::map_or(file_type, False, closure)" and len(isd) == 1, "R11.2", "is-dir-definition",
+        ctx.require(lets.get("is_dir") in ("Option::map_or(file_type, False, closure)", "Option::is_some_and(file_type, closure)") and len(isd) == 1, "R11.2", "is-dir-definition",
                     "is_dir = the file type is known and is Dir (unknown counts as not a directory)", cloc, detail="%s / %d" % (lets.get("is_dir"), len(isd)),
                     fail="is_dir is no longer `file_type.map_or(false, |t| matches!(t, FileType::Dir))`: paths of unknown type are treated as directories (or directories as files)")
     except Skip:
